@@ -186,9 +186,6 @@ package state
 //@ func State.VerifyReservedContractRequests
 //@   noverify
 //@   pure
-//@ func State.queryAccountACL
-//@   noverify
-//@   pure
 
 // passed[tx][k] counts successful runs of check k on transaction tx (ghost history);
 // k: 1 signatures, 2 utxo permission, 3 contract permission, 4 contract amount,
@@ -221,13 +218,16 @@ package state
 // either justified by the contract-utxo entry the transaction carries (checked by
 // re-execution) or belongs to an account whose rule the listed signers satisfy; an
 // unsigned plain address is refused.
+// hasACL: the account exists - the manager answers with an access-control list and no error
+// (an account without one would otherwise be a rule everybody satisfies).
+//@ macro hasACL(t, n) = t.sctx.AclMgr != nil && t.sctx.AclMgr.GetAccountACL(n) != nil && t.sctx.AclMgr.GetAccountACL#1(n) == nil
 //@ func State.verifyUTXOPermission
 //@   property C07
 //@   sets passed = passInc(old(passed), tx, 2, result0)
 //@   ensures other_maps_untouched: mapsFrame(string, bool, verifiedID)
 //@   ensures owners_authorised: result0 ==> (forall i int :: 0 <= i && i < len(tx.TxInputs) ==> in(verifiedID, str(tx.TxInputs[i].FromAddr)) || contractSpent(tx, i))
-//@   ensures identities_added_only_by_account_rule: result0 ==> (forall n string :: in(verifiedID, n) ==> old(in(verifiedID, n)) || (utils.IsAccount(n) == 1 && utils.IdentifyAccount(t.sctx.AclMgr, n, tx.AuthRequire)))
-//@   loop 2 invariant checked: conUtxoInputsMap != nil && 0 <= $i && $i <= len(tx.TxInputs) && (forall i int :: 0 <= i && i < $i ==> in(verifiedID, str(tx.TxInputs[i].FromAddr)) || contractSpent(tx, i)) && (forall n string :: in(verifiedID, n) ==> old(in(verifiedID, n)) || (utils.IsAccount(n) == 1 && utils.IdentifyAccount(t.sctx.AclMgr, n, tx.AuthRequire))) && (forall k string :: in(conUtxoInputsMap, k) && conUtxoInputsMap[k] ==> conKey(tx, k))
+//@   ensures identities_added_only_by_account_rule: result0 ==> (forall n string :: in(verifiedID, n) ==> old(in(verifiedID, n)) || (utils.IsAccount(n) == 1 && hasACL(t, n) && utils.IdentifyAccount(t.sctx.AclMgr, n, tx.AuthRequire)))
+//@   loop 2 invariant checked: conUtxoInputsMap != nil && 0 <= $i && $i <= len(tx.TxInputs) && (forall i int :: 0 <= i && i < $i ==> in(verifiedID, str(tx.TxInputs[i].FromAddr)) || contractSpent(tx, i)) && (forall n string :: in(verifiedID, n) ==> old(in(verifiedID, n)) || (utils.IsAccount(n) == 1 && hasACL(t, n) && utils.IdentifyAccount(t.sctx.AclMgr, n, tx.AuthRequire))) && (forall k string :: in(conUtxoInputsMap, k) && conUtxoInputsMap[k] ==> conKey(tx, k))
 //@   loop 1 invariant frame: mapsFrame(string, bool, verifiedID)
 //@   loop 2 invariant frame: mapsFrame(string, bool, verifiedID)
 //@   loop 1 invariant identities_untouched: conUtxoInputsMap != verifiedID && (forall n string :: in(verifiedID, n) == old(in(verifiedID, n)))
